@@ -74,9 +74,9 @@ def cfgs(tier):
         yield 'Reg w%d e2bit r2bit' % w, reg_cfg(w, w, 1, 1, None, ew=2, rw_=2)
 
     # ---- TReg ------------------------------------------------------------------------------------
-    def treg_cfg(en, rs):
+    def treg_cfg(en, rs, tw=1):
         def build(s):
-            t, q = W(s, 't', 1), W(s, 'q', 1)
+            t, q = W(s, 't', tw), W(s, 'q', 1)
             ins = {'t': t}
             e = r = None
             if en:
@@ -88,10 +88,13 @@ def cfgs(tier):
             dut = TReg(s, 'dut', t, q, enable=e, reset=r)
             return {'ins': ins, 'outs': {'q': q}, 'regs': {'reg': find(dut, 'reg')}}
         return {'build': build, 'init': {'reg': 0},
-                'next': lambda S, I: {'reg': reg_rule(S['reg'], z3.If(I['t'] == 1, ~S['reg'], S['reg']), I.get('e'), I.get('r'), 0, 1)},
+                'next': lambda S, I: {'reg': reg_rule(S['reg'], z3.If(z3.Extract(0, 0, I['t']) == 1, ~S['reg'], S['reg']), I.get('e'), I.get('r'), 0, 1)},
                 'out': lambda S, I: {'q': S['reg']}}
     for en, rs in itertools.product((0, 1), (0, 1)):
         yield 'TReg e%d r%d' % (en, rs), treg_cfg(en, rs)
+        for tw in ((2, 8) if quick else (2, 3, 8)):
+            # a wider toggle input: the selecting Mux2 looks at its lowest bit
+            yield 'TReg e%d r%d toggle input %d bits' % (en, rs, tw), treg_cfg(en, rs, tw)
 
     # ---- counters -----------------------------------------------------------------------------------
     def counter_cfg(w, has_reset, has_inc):
